@@ -461,11 +461,8 @@ func parseStops(csv *csv.File, inheritWheelchairBoarding bool) []Stop {
 	stopIdToParent := map[string]string{}
 	for csv.NextRow() {
 		stopID := idColumn.Read()
-		hasParentStop := false
-		if parentStopId := parentStationColumn.Read(); parentStopId != "" {
-			stopIdToParent[stopID] = parentStopId
-			hasParentStop = true
-		}
+		parentStopId := parentStationColumn.Read()
+		hasParentStop := parentStopId != ""
 		stop := Stop{
 			Id:                 stopID,
 			Code:               codeColumn.Read(),
@@ -484,15 +481,22 @@ func parseStops(csv *csv.File, inheritWheelchairBoarding bool) []Stop {
 			log.Printf("Skipping stop %+v because of missing keys %s", stop, missingKeys)
 			continue
 		}
+		if hasParentStop {
+			stopIdToParent[stop.Id] = parentStopId
+		}
 		stopIdToIndex[stop.Id] = len(stops)
 		stops = append(stops, stop)
 	}
-	for stopId, parentStopId := range stopIdToParent {
+	for i := range stops {
+		parentStopId, ok := stopIdToParent[stops[i].Id]
+		if !ok {
+			continue
+		}
 		parentStopIndex, ok := stopIdToIndex[parentStopId]
 		if !ok {
 			continue
 		}
-		stops[stopIdToIndex[stopId]].Parent = &stops[parentStopIndex]
+		stops[i].Parent = &stops[parentStopIndex]
 	}
 
 	// Inherit wheelchair boarding from parent stops if specified.
